@@ -5,6 +5,7 @@ import (
 	"errors"
 	"fmt"
 	"io"
+	"os"
 	"runtime"
 	"sort"
 	"strconv"
@@ -208,7 +209,11 @@ func errClass(err error) string {
 	return "other:" + Canon(msg)
 }
 
-func (execEngine) Isolated(op string) bool { return strings.Contains(op, "closepanic") }
+// Isolated: ops that can kill the process run in a child process. After a crash of the whole
+// harness the check re-runs with PCVH_ISOLATE_ALL=1 so that the crashing op becomes an answer.
+func (execEngine) Isolated(op string) bool {
+	return strings.Contains(op, "closepanic") || os.Getenv("PCVH_ISOLATE_ALL") == "1"
+}
 
 func (execEngine) Exec(op string) string {
 	c, ok := parseExecCase(op)
@@ -422,6 +427,25 @@ func (execEngine) Gen(r *Rand, tier string) [][]string {
 				continue
 			}
 			add(fmt.Sprintf("compile par=%d req=%s sched=%d graph=%s faults=-", par, strings.Join(req, ","), r.Intn(1000), g))
+		}
+	}
+	// (1b) cancellation while tasks queue for a permit: two independent chains, low parallelism,
+	// cancel during the k-th resolver call, many schedules
+	reps := 6
+	if tier == "thorough" {
+		reps = 60
+	}
+	for _, g := range []string{"a:b;b:;c:d;d:", "a:b,c;b:;c:;d:e;e:", "a:b;b:c;c:;d:c"} {
+		for par := 1; par <= 2; par++ {
+			for k := 0; k <= 4; k++ {
+				for i := 0; i < reps; i++ {
+					req := "a,c"
+					if strings.Contains(g, "d:e") || strings.Contains(g, "d:c") {
+						req = "a,d"
+					}
+					add(fmt.Sprintf("compile par=%d req=%s sched=%d graph=%s faults=- cancel=%d", par, req, r.Intn(100000), g, k))
+				}
+			}
 		}
 	}
 	// (2) random graphs 2..7 nodes: DAGs mostly, some with back edges / missing files, with fault plans
